@@ -306,13 +306,18 @@ class QGen:
             return f"{fn}({self.nodes(samples, depth)}, {self.quote(self.rng.choice(TYPE_NAMES))})"
         if r < 0.9 and self.opts["p_ext"] > 0:
             k = self.rng.random()
-            if k < 0.4:
+            if k < 0.3:
                 return f"{self.singular(samples)} in {self.list_literal()}"
-            if k < 0.6:
+            if k < 0.45:
                 return f"{self.literal()} in {self.singular(samples)}"
-            if k < 0.8:
+            if k < 0.6:
                 return f"{self.singular(samples)} contains {self.literal()}"
-            return f"{self.list_literal()} contains {self.singular(samples)}"
+            if k < 0.7:
+                return f"{self.list_literal()} contains {self.singular(samples)}"
+            # non-singular operands: a nodelist of several nodes on either side
+            if k < 0.85:
+                return f"{self.literal()} in {self.nodes(samples, depth)}"
+            return f"{self.nodes(samples, depth)} contains {self.literal()}"
         if r < 0.95 and self.opts["p_ext"] > 0:
             flags = self.rng.choice(["", "", "i", "s", "im", "a"])
             pat = self.rng.choice([p for p in REGEXES if "/" not in p and p != "("])
